@@ -9,6 +9,8 @@ go result / model result per op:
   rtb           : isTemporary || isTransientNetworkError of the real code against retriable_spec (Kafka error
                   table + transient transport classes), one case per error class; the model side NEVER uses the
                   code's own classification: histories are judged with retriable_spec
+  trk           : trickle (Async, one message every BatchTimeout/3): per produce request the accept times of its
+                  messages; model = span_ok (no message later than BatchTimeout + margin after the request's first)
   nwc           : kafka.NewWriter(WriterConfig) field by field against cfg_of_writer_config / options_of_writer_config
   pdl           : the context deadline the RoundTripper receives for the produce / metadata request of the real
                   Writer against produce_deadline_ms (effective WriteTimeout) / metadata_deadline_ms (none: caller's ctx only)
@@ -41,6 +43,9 @@ COMMON_TRUSTED = [
     "retriable : err -> bool is a parameter of the model (theorems hold for every such predicate); histories are judged with the SPECIFIED classification retriable_spec (Kafka protocol error table, transcribed by hand: fidelity trusted; plus transient transport classes), never with the code's own; the code's isTemporary || isTransientNetworkError is compared with it class by class (op rtb); documented deviation of the unchanged tree: code 9 REPLICA_NOT_AVAILABLE is retriable in the table, not in kafka-go",
 ]
 
+TWO_IN_FLIGHT = ("two produce round trips of one partition were in flight at the same time (an attempt abandoned inside the "
+                 "RoundTripper and the batch re-sent, or a second partition writer registered for the partition while the first "
+                 "is still sending)")
 PRED_PROP = {
     "C08_limits_holds": "C08", "rejected_sends_nothing_holds": "C08", "verdict_holds": "C08",
     "C01_nil_holds": "C01", "C01_we_holds": "C01", "C01_compl_holds": "C01",
@@ -140,6 +145,15 @@ def failures_of_case(c):
                 out.append(("*", "correspondence", "Client.Produce's response mapping (error code value / Throttle / BaseOffset / "
                             "LogAppendTime / LogStartOffset / RecordErrors) differs from the model", None))
         return out
+    if op == "trk":
+        if go != "ok":
+            out.append(("C09", "property", f"trickle scenario: {go[:100]}", None))
+        elif model != "ok":
+            out.append(("C08", "property",
+                        "a produce request contains a message accepted more than BatchTimeout (+ an equal margin) after the first "
+                        "message of that request: BatchTimeout does not count from the batch's opening (later adds keep the batch "
+                        "open); the case lists, per request, the accept times in ms (timing class: the harness re-ran it once)", None))
+        return out
     if op == "rtb":
         if go != model:
             out.append(("C01", "property",
@@ -193,13 +207,14 @@ def failures_of_case(c):
             out.append(("C09", "correspondence", f"batchMessages-after-Close scenario: implementation says {go}, model says {model}", None))
         return out
     if op in ("e2e", "wire"):
+        if "two-in-flight" in c["feats"].split(",") and not go.startswith("ANOMALY:two-in-flight"):
+            out.append(("C07", "property", TWO_IN_FLIGHT, None))
         if go.startswith("HANG:close"):
             out.append(("C09", "property", "Close did not return within the watchdog", None))
         elif go.startswith("HANG"):
             out.append(("C09", "property", f"a blocked operation did not return within the watchdog ({go})", None))
         elif go.startswith("ANOMALY:two-in-flight"):
-            out.append(("C07", "property", "two produce round trips of one partition were in flight at the same time (an attempt was "
-                        "abandoned inside the RoundTripper and the batch re-sent)", None))
+            out.append(("C07", "property", TWO_IN_FLIGHT, None))
         elif go.startswith("LEAK:"):
             out.append(("C09", "property",
                         "after Writer.Close returned, goroutines / connections of the writer's own Transport are still alive "
@@ -246,7 +261,7 @@ def relevant(prop, c):
         return prop == "C08"
     if op in ("pdl", "pto", "rtb"):
         return prop == "C01"
-    if op == "nwc":
+    if op in ("nwc", "trk"):
         return prop == "C08"
     if op == "wire":
         return prop == "C07" or (prop == "C09" and "census" in c["feats"].split(","))
@@ -267,7 +282,7 @@ def nontrivial(c):
         return "zero-fields=0" not in c["feats"]
     if c["op"] in ("pdl", "pto"):
         return "rt=wt" not in c["feats"]
-    if c["op"] in ("rtb", "nwc"):
+    if c["op"] in ("rtb", "nwc", "trk", "nwt"):
         return True
     if c["op"] == "wire":
         return "stall" in c["feats"] or "census" in c["feats"]
@@ -439,3 +454,51 @@ def writer_cut_cases(ctx):
     samples = [c["line"][:500] + " | " + c["go"][:60] + " | " + c["feats"][:160] for c in cases[:3]]
     return dict(evaluations=len(cases), distinct_nontrivial=len(dn), hist=hist, failures=failures, samples=samples,
                 extra=dict(wcut_go_run_s=round(dt, 1)))
+
+
+# --------------------------------------------------------------------------------------------
+# C18 (hosted): the Transport that kafka.NewWriter builds.  Called by checks/c18.py.
+NWT_PREFIX = "C18 NewWriter transport: "
+
+
+def newwriter_transport_cases(ctx):
+    """kafka.NewWriter(WriterConfig{Dialer, IdleConnTimeout, RebalanceInterval}) on the real
+    constructor: SASL / TLS / ClientID / IdleTimeout / MetadataTTL / Dial of the *kafka.Transport it
+    builds (exported fields, read through w.Transport) against transport_of_writer_config of
+    Model/Writer.v, over SASL set/unset x TLS set/unset x ClientID x Dialer nil and random durations
+    (zero = default).  Returns dict(evaluations, distinct_nontrivial, hist, failures, samples)."""
+    gobin = L.go_build("writer")
+    model = L.ocaml_build("writer")
+    n = ctx.scale(200, 4000)
+    rc, out, err, dt = L.sh([gobin, "-seed", str(ctx.seed), "-nwt", str(n)], timeout=600)
+    if rc != 0:
+        raise L.Fail("correspondence", "harness cmd/writer -nwt crashed", (out[-1000:] + err[-2000:]))
+    cases = L.parse_cases(out)
+    for c in cases:
+        c["line"] = c["id"] + " " + c["op"] + " " + c["args"]
+    res = L.run_model(model, "\n".join(c["line"] for c in cases) + "\n")
+    names = ["SASL", "TLS", "ClientID", "IdleTimeout", "MetadataTTL", "Dial"]
+    failures, seen, hist, dn = [], set(), {}, set()
+    for c in cases:
+        m = res.get(c["id"])
+        for t in (c["feats"].split(",") if c["feats"] else [""]):
+            hist["nwt:" + t] = hist.get("nwt:" + t, 0) + 1
+        dn.add(c["args"])
+        if m == c["go"]:
+            continue
+        g, mm = c["go"].split(":"), (m or "").split(":")
+        diff = [names[i] for i in range(min(len(g), len(mm), 6)) if g[i] != mm[i]] or ["result not interpretable"]
+        if "SASL" in diff and len(g) > 0 and g[0] == "0":
+            what = ("the Transport built by NewWriter has no SASL mechanism although WriterConfig.Dialer.SASLMechanism is set: "
+                    "every connection sends its requests unauthenticated")
+        else:
+            what = "field(s) " + ", ".join(diff) + " of the Transport built by NewWriter differ from WriterConfig.Dialer / the config"
+        if what in seen:
+            continue
+        seen.add(what)
+        failures.append(dict(layer="property", key=None, what=NWT_PREFIX + what,
+                             detail=json.dumps(dict(case=c["line"], go=c["go"], model=m, feats=c["feats"])),
+                             input=dict(case=c["line"], go=c["go"], model=m, feats=c["feats"], seed=ctx.seed,
+                                        replay="build/bin/writer -seed %d -nwt %d | grep '^%s '" % (ctx.seed, n, c["id"]))))
+    return dict(evaluations=len(cases), distinct_nontrivial=len(dn), hist=hist, failures=failures,
+                samples=[c["line"] + " | " + c["go"] + " | " + c["feats"] for c in cases[:4]])
